@@ -289,7 +289,12 @@ def plan_wrap(S, prop, tier, avoid):
         ops = [{"k": "pull"} for _ in range(n + 1)]
         if chance(sched, 0.3):
             ops.append({"k": "pull"})       # one more next() after exhaustion
-    return {"cfg": {"src": src, "entry": entry, "opts": opts, "clock": clock}, "ops": ops}
+    out = {"cfg": {"src": src, "entry": entry, "opts": opts, "clock": clock}, "ops": ops}
+    nb = S.py("nestedbar")
+    if chance(nb, 0.1):
+        out["cfg"]["inner"] = nb.randrange(1, 4)
+        out["cfg"]["inner_entry"] = pick(nb, ["pbar", "prange"])
+    return out
 
 
 def plan_pool(S, prop, tier, avoid):
@@ -667,6 +672,18 @@ def execute_wrap(script, run, env):
                 continue
             received.append(v)
             run.event(0, "pull", "", "ok", repr(v))
+            if cfg.get("inner"):
+                # the loop body runs a progress bar of its own (nested loops): another wrapper object, the same clock
+                try:
+                    inner_items = [x for x in pb.pbar(range(cfg["inner"]), file=io.StringIO(), leave=False)] if cfg.get("inner_entry", "pbar") == "pbar" \
+                        else [x for x in pb.prange(cfg["inner"], file=io.StringIO())]
+                except Exception as e:
+                    inner_items = e
+                if k == 0:
+                    run.fault("loop_body_runs_a_progress_bar_of_its_own")
+                if judge and inner_items != list(range(cfg["inner"])):
+                    run.fail("prog.wrap.items", dict(feats, inner=True), "a progress bar run inside the loop body yielded %r, expected %r"
+                             % (inner_items, list(range(cfg["inner"]))))
             if judge:
                 run.checks += 1
                 if k >= n or not (v == items[k]):
